@@ -15,6 +15,7 @@ import (
 	"verifharness/drv/fwd"
 	"verifharness/drv/hb"
 	"verifharness/drv/idg"
+	"verifharness/drv/ip"
 	"verifharness/drv/fc"
 	"verifharness/drv/ls"
 	"verifharness/drv/pk"
@@ -57,6 +58,8 @@ func main() {
 		os.Exit(pk.Main(os.Args[2:]))
 	case "ec":
 		os.Exit(ec.Main(os.Args[2:]))
+	case "ip":
+		os.Exit(ip.Main(os.Args[2:]))
 	case "rt":
 		os.Exit(rt.Main(os.Args[2:]))
 	case "ag-runmain":
